@@ -1,6 +1,7 @@
 import CCVerif.Lemmas.EvalGround
 import CCVerif.Lemmas.EvalSetOps
 import CCVerif.Lemmas.EvalExamples
+import CCVerif.Lemmas.EvalExamples6
 /-!
 # C01 — evaluation returns the set-theoretic value
 
@@ -230,22 +231,22 @@ theorem stage1_sub_stage2 {env : Env} {e : Ast} (h : Stage1 env e) : Stage2 env 
 theorem stage2_sub_stage3 {env : Env} {e : Ast} (h : Stage2 env e) : Stage3 env e :=
   let ⟨G, τ, hG, hf⟩ := h; ⟨G, τ, hG, hf.mono (by decide)⟩
 
-private theorem refines_of_frag {env : Env} {G : TCtx} {lvl : Nat} (hG : GlobalsOK env G) {e : Ast} {τ : ExprTy}
-    (h : Frag env G lvl [] e τ) (fuel : Nat) :
+private theorem refines_of_frag {env : Env} {G : TCtx} {lvl : Nat} (hG : GlobalsOK env G) {e n : Ast} {τ : ExprTy}
+    (h : FragR env G lvl [] [] e n τ) (hl5 : lvl ≤ 5) (fuel : Nat) :
     (∀ v, (evaluate fuel env e).1 = .ok v → denote (senvOf env) fuel .nil e = some (.val v)) ∧
     (∀ b, (evaluate fuel env e).1 = .okBool b → denote (senvOf env) fuel .nil e = some (.bool b)) := by
-  rcases evaluate_frag hG h fuel with hg | hf | ⟨eid, pos, he, _⟩
+  rcases evaluate_frag hG h hl5 fuel with hg | hf | ⟨eid, pos, he, _⟩
   · cases τ with
     | ty ty =>
       obtain ⟨v, hr, _, _, hd⟩ := hg
       constructor
-      · intro v' hv; rw [hr] at hv; injection hv with hv; rw [← hv]; exact hd
+      · intro v' hv; rw [hr] at hv; injection hv with hv; rw [← hv]; exact hd fuel (Nat.le_refl _)
       · intro b hb; rw [hr] at hb; cases hb
     | logic =>
       obtain ⟨b, hr, hd⟩ := hg
       constructor
       · intro v hv; rw [hr] at hv; cases hv
-      · intro b' hb; rw [hr] at hb; injection hb with hb; rw [← hb]; exact hd
+      · intro b' hb; rw [hr] at hb; injection hb with hb; rw [← hb]; exact hd fuel (Nat.le_refl _)
   · constructor <;> intro x hx <;> rw [hf] at hx <;> cases hx
   · constructor <;> intro x hx <;> rw [he] at hx <;> cases hx
 
@@ -256,7 +257,7 @@ Missing from the full statement: tuple patterns and enumerated declarations (whe
 rewrites), calls, `R{}`, `I{}`, filters, `Z`; `ℬ` of operands with more than `2^POW_BOUND` subsets. -/
 theorem eval_refines_denote_partial3 : eval_refines_denote_statement Stage3 := by
   intro env e ⟨G, τ, hG, hf⟩ fuel
-  exact refines_of_frag hG hf fuel
+  exact refines_of_frag hG hf (by decide) fuel
 
 /-- **eval_refines_denote_partial2**: closed expressions over globals (no binders) -/
 theorem eval_refines_denote_partial2 : eval_refines_denote_statement Stage2 :=
@@ -270,9 +271,210 @@ theorem eval_refines_denote_partial1 : eval_refines_denote_statement Stage1 :=
 binder variables are not rewritten) -/
 theorem normalize_correct_partial3 : normalize_correct_statement Stage3 := by
   intro env e n ⟨G, τ, _, hf⟩ fuel hn
-  rcases normalizeTree_shape hf.shape_closed fuel with h0 | h0 <;> rw [h0] at hn
+  rcases FragR.normalizesTree hf (by decide) fuel with h0 | h0 <;> rw [h0] at hn
   · cases hn
   · injection hn with hn; rw [← hn]
+
+/-! ## stage 4: the recursive and the imperative constructor over plain variables
+
+`Frag … 4` adds `R{x := init | step}`, `R{x := init | cond | step}` and `I{value | blocks}` with `x :∈ S`,
+`x := e` and condition blocks (one plain variable per binder, no shadowing).  The normaliser is still the
+identity.  Budgets: the evaluator counts the rounds of ALL loops of one evaluation in one counter and stops
+with the documented `iterationsLimit` beyond `MAX_ITERATIONS`; the reference semantics bounds each `R{…}`
+separately by `REC_BOUND = MAX_ITERATIONS + 1` rounds (`rec_budget`) and does not bound `I{…}`.  Because the
+counter never decreases (part of the simulation invariant), an evaluation that returns a value made at most
+`MAX_ITERATIONS` rounds of any recursion, so the reference has a value too - the same one.  The converse
+does not hold and is not claimed: `⟦·⟧` may have a value where the evaluator reports `iterationsLimit`.
+The block machine of `ImpEvaluator` (block stack, iterator stack, `PrepareNextIteration`) is shown to
+enumerate exactly the nested comprehension (`impLoop_sim` in `Lemmas/EvalRecImp.lean`). -/
+
+/-- stage 4: + `R{…}` (short and full form) and `I{…}` over plain variables -/
+def Stage4 (env : Env) (e : Ast) : Prop := ∃ G τ, GlobalsOK env G ∧ Frag env G 4 [] e τ
+
+theorem stage3_sub_stage4 {env : Env} {e : Ast} (h : Stage3 env e) : Stage4 env e :=
+  let ⟨G, τ, hG, hf⟩ := h; ⟨G, τ, hG, hf.mono (by decide)⟩
+
+/-- the two iteration budgets: one more round is granted to every recursion of the reference semantics than
+the evaluator grants to the whole evaluation -/
+theorem rec_budget : Spec.REC_BOUND = Eval.MAX_ITERATIONS + 1 := rfl
+
+/-- **eval_refines_denote_partial4**: the refinement for closed expressions of stage 3 extended with the
+recursive constructor (short and full form) and the imperative constructor (iterate / assign / condition
+blocks), all binders over one plain variable.  A returned value is the reference value although the two
+sides bound iteration differently (see above); `iterationsLimit` is an allowed failure.
+Missing from the full statement: enumerated declarations, tuple patterns, calls, filters, `Z`; `ℬ` of operands
+with more than `2^POW_BOUND` subsets. -/
+theorem eval_refines_denote_partial4 : eval_refines_denote_statement Stage4 := by
+  intro env e ⟨G, τ, hG, hf⟩ fuel
+  exact refines_of_frag hG hf (by decide) fuel
+
+/-- … and the value does not depend on the fuel of the reference semantics: every larger fuel gives it too -/
+theorem eval_refines_denote_partial4_stable (env : Env) (e : Ast) (h : Stage4 env e) (fuel f' : Nat) (hf' : fuel ≤ f') :
+    (∀ v, (evaluate fuel env e).1 = .ok v → denote (senvOf env) f' .nil e = some (.val v)) ∧
+    (∀ b, (evaluate fuel env e).1 = .okBool b → denote (senvOf env) f' .nil e = some (.bool b)) := by
+  obtain ⟨G, τ, hG, hf⟩ := h
+  rcases evaluate_frag hG hf (by decide) fuel with hg | ho | ⟨eid, pos, he, _⟩
+  · cases τ with
+    | ty ty =>
+      obtain ⟨v, hr, _, _, hd⟩ := hg
+      constructor
+      · intro v' hv; rw [hr] at hv; injection hv with hv; rw [← hv]; exact hd f' hf'
+      · intro b hb; rw [hr] at hb; cases hb
+    | logic =>
+      obtain ⟨b, hr, hd⟩ := hg
+      constructor
+      · intro v hv; rw [hr] at hv; cases hv
+      · intro b' hb; rw [hr] at hb; injection hb with hb; rw [← hb]; exact hd f' hf'
+  · constructor <;> intro x hx <;> rw [ho] at hx <;> cases hx
+  · constructor <;> intro x hx <;> rw [he] at hx <;> cases hx
+
+/-- **normalize_correct_partial4**: the normaliser is the identity on stage 4 as well (plain variables in
+`R{}` / `I{}` are not rewritten) -/
+theorem normalize_correct_partial4 : normalize_correct_statement Stage4 := by
+  intro env e n ⟨G, τ, _, hf⟩ fuel hn
+  rcases FragR.normalizesTree hf (by decide) fuel with h0 | h0 <;> rw [h0] at hn
+  · cases hn
+  · injection hn with hn; rw [← hn]
+
+/-! non-vacuity of stage 4 (`Lemmas/EvalExamples.lean`):
+`R{s:={1} | card(s)<3 | s ∪ D{y∈{1,2,3,4} | ∃x∈s y=x+1}} = {1,2,3} & R{s:={1} | s ∪ D{…}} = {1,2,3,4} &
+I{(x,y) | x:∈{1,2,3}; y:=x*x; y>1} = {(2,4),(3,9)}` -/
+example : Stage4 Examples.env0 Examples.e5 := ⟨[], _, globalsOK_nil _, Examples.e5_frag⟩
+example : (evaluate 30 Examples.env0 Examples.e5).1 = .okBool true ∧
+    denote (senvOf Examples.env0) 30 .nil Examples.e5 = some (.bool true) := by decide
+
+/-! ## stage 5: enumerated declarations `Q x₁,…,xₙ ∈ S . P`
+
+Here the normaliser is NOT the identity: `Normalizer::EnumDeclaration` turns the quantifier into `n` nested
+quantifiers, each over a copy of the domain (`nest`).  `FragR env G 5 Γ e n τ` relates the expression as parsed
+to its normal form; the reference semantics is taken on `e` (the domain denoted once, the declarations ranging
+over all combinations: `quantSem`), the evaluator runs on `n`.  The copies of the domain are evaluated inside
+the scope of the earlier variables; this is sound because the domain is typed outside them and because every
+binder restores the slot of its variable (`SlotGuard`, see `enum_domain_rebinds_fixed`): no side condition on
+the names bound inside the domain is needed. -/
+
+/-- stage 5: + quantifiers with an enumerated declaration (`n ≥ 2` distinct new plain variables) -/
+def Stage5 (env : Env) (e : Ast) : Prop := ∃ G τ n, GlobalsOK env G ∧ FragR env G 5 [] [] e n τ
+
+theorem stage4_sub_stage5 {env : Env} {e : Ast} (h : Stage4 env e) : Stage5 env e :=
+  let ⟨G, τ, hG, hf⟩ := h; ⟨G, τ, e, hG, FragR.mono (by decide) hf⟩
+
+/-- **eval_refines_denote_partial5**: the refinement for closed expressions of stage 4 extended with
+enumerated declarations in `∀ ∃`: evaluation of the NORMALISED tree (nested quantifiers over copies of the
+domain) returns the value the reference semantics assigns to the ORIGINAL tree.
+Missing from the full statement: tuple patterns, calls, filters, `Z`; `ℬ` of operands with more than
+`2^POW_BOUND` subsets. -/
+theorem eval_refines_denote_partial5 : eval_refines_denote_statement Stage5 := by
+  intro env e ⟨G, τ, n, hG, hf⟩ fuel
+  exact refines_of_frag hG hf (by decide) fuel
+
+/-- **normalize_enum_partial5**: what the normaliser does on stage 5: it returns the normal form of the
+judgement - every enumerated declaration replaced by nested single-variable quantifiers (`nest`), everything
+else untouched (or it runs out of the model's fuel) -/
+theorem normalize_enum_partial5 (env : Env) (e n : Ast) (G : TCtx) (τ : ExprTy) (h : FragR env G 5 [] [] e n τ) (fuel : Nat) :
+    normalizeTree env.funcs fuel e = none ∨ normalizeTree env.funcs fuel e = some n :=
+  FragR.normalizesTree h (by decide) fuel
+
+/-- **normalize_correct_partial5** (evaluation of the normal form refines the semantics of the original): if
+`Interpreter::Evaluate` - which runs on the normal form - returns a value, that value is the reference value
+of the original tree at every fuel from the evaluator's on.  NOT proved: the unconditional equation
+`⟦n⟧ = ⟦e⟧` of `normalize_correct_statement` for this rewrite; it needs two general facts about `⟦·⟧` that are
+not available yet (monotonicity in the fuel; independence from variables that do not occur). -/
+theorem normalize_correct_partial5 (env : Env) (e : Ast) (h : Stage5 env e) (fuel f' : Nat) (hf' : fuel ≤ f') :
+    (∀ v, (evaluate fuel env e).1 = .ok v → denote (senvOf env) f' .nil e = some (.val v)) ∧
+    (∀ b, (evaluate fuel env e).1 = .okBool b → denote (senvOf env) f' .nil e = some (.bool b)) := by
+  obtain ⟨G, τ, n, hG, hf⟩ := h
+  rcases evaluate_frag hG hf (by decide) fuel with hg | ho | ⟨eid, pos, he, _⟩
+  · cases τ with
+    | ty ty =>
+      obtain ⟨v, hr, _, _, hd⟩ := hg
+      constructor
+      · intro v' hv; rw [hr] at hv; injection hv with hv; rw [← hv]; exact hd f' hf'
+      · intro b hb; rw [hr] at hb; cases hb
+    | logic =>
+      obtain ⟨b, hr, hd⟩ := hg
+      constructor
+      · intro v hv; rw [hr] at hv; cases hv
+      · intro b' hb; rw [hr] at hb; injection hb with hb; rw [← hb]; exact hd f' hf'
+  · constructor <;> intro x hx <;> rw [ho] at hx <;> cases hx
+  · constructor <;> intro x hx <;> rw [he] at hx <;> cases hx
+
+/-! non-vacuity of stage 5 (`Lemmas/EvalExamples.lean`):
+`∃a,b∈D{a∈{1,2} | 1=1} (a=1 & b=b) & ∀x,y,z∈{1,2,3} (x<y & y<z ⇒ x<z)` - the first conjunct is the input of
+`enum_domain_rebinds_fixed` (the domain binds a variable named like the first variable of the declaration);
+the normal form is the nested one -/
+example : Stage5 Examples.env0 Examples.e6 := ⟨[], _, _, globalsOK_nil _, Examples.e6_frag⟩
+example : normalizeTree Examples.env0.funcs 30 Examples.e6 = some Examples.e6n := by rfl
+example : (evaluate 30 Examples.env0 Examples.e6).1 = .okBool true ∧
+    denote (senvOf Examples.env0) 30 .nil Examples.e6 = some (.bool true) := by decide
+
+/-! ## stage 6: flat tuple patterns `Q (x₁,…,xₙ) ∈ S . P`, `D{(x₁,…,xₙ) ∈ S | P}`
+
+`Normalizer::TupleDeclaration` replaces the pattern by ONE generated variable (`'@'` + the component names, with
+`'@'` appended while the name is taken by a pattern with other components) and substitutes `pr_i` of it for the
+components in the scope.  The judgement `FragR … 6` carries a realisation map (`x ↦ (nn, i)`: the source variable
+`x` is `pr_i(nn)` in the normal form) and the simulation invariant says how the evaluator holds the value of a
+variable: in its own slot, or as a component of the tuple in the slot of the generated variable (`Holds`).  The
+reference semantics binds the components by projection (`bindPat`); the two are tied at every binder
+(`Inv.bindTup`).  The generated names depend on the state of the `Normalizer` object; under `NoCollide` (no two
+patterns of the expression with different components have the same concatenation of component names - the
+situation of `binder_collision_fixed`, which stays a closed theorem) the name is the candidate name, and
+`FragR.normRel` (`Lemmas/EvalNormRel.lean`) proves that the normaliser returns exactly the normal form of the
+judgement, including the substitution into the not yet normalised scope.
+Covered: flat patterns of plain variables in `∀ ∃` and `D{}`, arbitrarily nested with everything of stages 1-5.
+Not covered: nested patterns `((a,b),c)`, patterns in `R{}` / `I{}` and inside enumerated declarations. -/
+
+/-- stage 6: + flat tuple patterns in `∀ ∃ D{}`; the candidate names of the patterns do not collide -/
+def Stage6 (env : Env) (e : Ast) : Prop :=
+  ∃ G τ n, GlobalsOK env G ∧ FragR env G 6 [] [] e n τ ∧ NoCollide (patsOf e)
+
+/-- every expression without tuple patterns satisfies the side condition -/
+theorem noCollide_nil : NoCollide [] := by intro xs hx; simp at hx
+
+private theorem top_of_frag6 {env : Env} {G : TCtx} (hG : GlobalsOK env G) {e n : Ast} {τ : ExprTy}
+    (h : FragR env G 6 [] [] e n τ) (hP : NoCollide (patsOf e)) (fuel : Nat) :
+    TopGood env fuel e τ (evaluate fuel env e).1 ∨ (evaluate fuel env e).1 = .outOfFuel ∨
+    ∃ eid pos, (evaluate fuel env e).1 = .err eid pos ∧ DocErr eid :=
+  evaluate_frag_of_norm hG h fuel (h.normalizesTree6 hP fuel)
+
+/-- **eval_refines_denote_partial6**: the refinement for closed expressions of stage 5 extended with flat tuple
+patterns in quantifiers and declarative set-builders: evaluation of the normalised tree (one generated variable
+per pattern, components read as projections) returns the value the reference semantics assigns to the original
+tree (components bound by projection), at the evaluator's fuel and at every larger one.
+Missing from the full statement: nested patterns, patterns in `R{}` / `I{}` / enumerated declarations, patterns
+whose candidate names collide, calls, filters, `Z`; `ℬ` of operands with more than `2^POW_BOUND` subsets. -/
+theorem eval_refines_denote_partial6 : eval_refines_denote_statement Stage6 := by
+  intro env e ⟨G, τ, n, hG, hf, hP⟩ fuel
+  rcases top_of_frag6 hG hf hP fuel with hg | ho | ⟨eid, pos, he, _⟩
+  · cases τ with
+    | ty ty =>
+      obtain ⟨v, hr, _, _, hd⟩ := hg
+      constructor
+      · intro v' hv; rw [hr] at hv; injection hv with hv; rw [← hv]; exact hd fuel (Nat.le_refl _)
+      · intro b hb; rw [hr] at hb; cases hb
+    | logic =>
+      obtain ⟨b, hr, hd⟩ := hg
+      constructor
+      · intro v hv; rw [hr] at hv; cases hv
+      · intro b' hb; rw [hr] at hb; injection hb with hb; rw [← hb]; exact hd fuel (Nat.le_refl _)
+  · constructor <;> intro x hx <;> rw [ho] at hx <;> cases hx
+  · constructor <;> intro x hx <;> rw [he] at hx <;> cases hx
+
+/-- **normalize_tuple_partial6**: what the normaliser returns on stage 6: the normal form of the judgement - every
+flat pattern replaced by the generated variable `'@' + components`, every use of a component in its scope by the
+projection of that variable, enumerated declarations nested, everything else untouched -/
+theorem normalize_tuple_partial6 (env : Env) (e n : Ast) (G : TCtx) (τ : ExprTy) (h : FragR env G 6 [] [] e n τ)
+    (hP : NoCollide (patsOf e)) (fuel : Nat) :
+    normalizeTree env.funcs fuel e = none ∨ normalizeTree env.funcs fuel e = some n :=
+  h.normalizesTree6 hP fuel
+
+/-! non-vacuity of stage 6 (`Lemmas/EvalExamples6.lean`):
+`D{(a,b)∈{(1,2),(2,3)} | ∃(c,d)∈{(1,2),(2,3)} b=c} = {(1,2)} & ∀(x,y)∈{(1,2),(2,3)} x<y`; its normal form uses the
+generated variables `@ab`, `@cd`, `@xy` -/
+example : Stage6 Examples.env0 Examples.e7 := ⟨[], _, _, globalsOK_nil _, Examples.e7_frag, Examples.e7_nocollide⟩
+example : normalizeTree Examples.env0.funcs 30 Examples.e7 = some Examples.e7n := by rfl
+example : (evaluate 30 Examples.env0 Examples.e7).1 = .okBool true ∧
+    denote (senvOf Examples.env0) 30 .nil Examples.e7 = some (.bool true) := by decide
 
 /-- the canonical-sets theorems above now cover the two lazy sets as well: the iteration order of
 `SDPowerSet` / `SDDecartian` lists exactly the canonical set of all subsets / all tuples -/
@@ -373,6 +575,52 @@ def patternScope : Ast :=
 theorem pattern_scope_fixed :
     (evaluate 20 envX patternScope).1 = .ok (.s [.t [.e 1, .e 1], .t [.e 2, .e 2]]) ∧
     denote (senvOf envX) 20 .nil patternScope = some (.val (.s [.t [.e 1, .e 1], .t [.e 2, .e 2]])) := by decide
+
+/-! ## stage 7 (calls of term functions): not proved; the statement needs a larger reference fuel
+
+`eval_refines_denote_statement` compares `evaluate fuel` with `denote … fuel` - the SAME fuel on both sides.  For
+calls this is false at tight fuel, as an artefact of the two fuels (not of the code): the normaliser inlines the
+call, so the evaluator spends nothing on it, while the reference semantics spends one unit on the call node and
+one on every parameter it looks up (call by name: the parameter is a thunk).  `call_fuel_counterexample` is the
+closed witness; from fuel 3 on both sides agree.  Stages 1-6 are not affected (there the evaluated tree is at
+least as deep as the original one, and the theorems give the reference value at every fuel from the evaluator's
+on).  A statement for stage 7 has to grant the reference more fuel: `eval_refines_denote_calls_statement`. -/
+
+/-- `F1 :== [s∈ℬ(X1)] s` -/
+def fIdDef : Ast :=
+  nd .PUNC_DEFINE [.node .ID_FUNCTION (.text "F1") 0 0 [],
+    nd .NT_FUNC_DEFINITION [nd .NT_ARGUMENTS [nd .NT_ARG_DECL [loc "s", nd .BOOLEAN [glob "X1"]]], loc "s"]]
+/-- `F1[X1]` -/
+def callId : Ast := nd .NT_FUNC_CALL [.node .ID_FUNCTION (.text "F1") 0 0 [], glob "X1"]
+private def envId : Env := { globals := [("X1", .s [.e 1, .e 2])], funcs := [("F1", fIdDef)] }
+
+/-- **call_fuel_counterexample**: with fuel 2 the evaluator returns `{1,2}` for `F1[X1]` (`F1 :== [s∈ℬ(X1)] s`) while
+the reference semantics has no value yet; with fuel 3 it has the same value -/
+theorem call_fuel_counterexample :
+    (evaluate 2 envId callId).1 = .ok (.s [.e 1, .e 2]) ∧ denote (senvOf envId) 2 .nil callId = none ∧
+    denote (senvOf envId) 3 .nil callId = some (.val (.s [.e 1, .e 2])) := by decide
+
+/-- the form in which the refinement can hold with calls: the reference is granted `k` more units of fuel (`k`
+bounded by the nesting of calls and parameter look-ups of the expression); not proved -/
+def eval_refines_denote_calls_statement (Typed : Env → Ast → Prop) : Prop :=
+  ∀ (env : Env) (e : Ast), Typed env e → ∃ k, ∀ (fuel f' : Nat), fuel + k ≤ f' →
+    (∀ v, (evaluate fuel env e).1 = .ok v → denote (senvOf env) f' .nil e = some (.val v)) ∧
+    (∀ b, (evaluate fuel env e).1 = .okBool b → denote (senvOf env) f' .nil e = some (.bool b))
+
+/-- `∃a,b∈D{a∈{1,2} | 1=1} (a=1 & b=b)` -/
+def enumDomainRebinds : Ast :=
+  nd .EXISTS [nd .NT_ENUM_DECL [loc "a", loc "b"],
+    nd .NT_DECLARATIVE_EXPR [loc "a", nd .NT_ENUMERATION [.node .LIT_INTEGER (.int 1) 0 0 [], .node .LIT_INTEGER (.int 2) 0 0 []],
+      nd .EQUAL [.node .LIT_INTEGER (.int 1) 0 0 [], .node .LIT_INTEGER (.int 1) 0 0 []]],
+    nd .AND [nd .EQUAL [loc "a", .node .LIT_INTEGER (.int 1) 0 0 []], nd .EQUAL [loc "b", loc "b"]]]
+
+/-- **enum_domain_rebinds_fixed** (found while preparing stage 5): the normaliser copies the domain of an
+enumerated declaration into the scope of the earlier variables; a binder inside the copy that is named like
+one of them overwrote the shared slot (the evaluator answered `false`).  Every binder now puts the previous
+value of its slot back (`SlotGuard`): evaluator and reference semantics agree on `true` -/
+theorem enum_domain_rebinds_fixed :
+    (evaluate 20 {} enumDomainRebinds).1 = .okBool true ∧
+    denote (senvOf {}) 20 .nil enumDomainRebinds = some (.bool true) := by decide
 
 /-- the normal form of `binderCollision` denotes what the expression denotes -/
 theorem normalize_correct_on_binderCollision :
